@@ -1,0 +1,26 @@
+//go:build verif
+
+// Package verifhooks re-exports internal components for the external
+// verification harness. It is compiled only with the "verif" build tag.
+package verifhooks
+
+import (
+	"github.com/junioryono/godi/v4/internal/graph"
+	"github.com/junioryono/godi/v4/internal/reflection"
+)
+
+type (
+	Graph                   = graph.DependencyGraph
+	NodeKey                 = graph.NodeKey
+	Node                    = graph.Node
+	GraphProvider           = graph.Provider
+	CircularDependencyError = graph.CircularDependencyError
+	Dependency              = reflection.Dependency
+	Analyzer                = reflection.Analyzer
+)
+
+// NewGraph returns an empty dependency graph.
+func NewGraph() *Graph { return graph.NewDependencyGraph() }
+
+// NewAnalyzer returns a fresh reflection analyzer.
+func NewAnalyzer() *Analyzer { return reflection.New() }
